@@ -189,6 +189,10 @@ def one(ctx, cname, label, route, pre):
                 if r > obj.hi_:
                     bad("moved-bound", "upper bound lowered to %r, the "
                         "attribute still reads %r" % (obj.hi_, r))
+                elif r == obj.hi_ and "xh=1" in cname:
+                    bad("moved-bound-excluded", "upper bound (excluded) "
+                        "lowered to %r, the attribute now reads the excluded "
+                        "bound itself" % (obj.hi_,))
                 obj.hi_ = c.owner_attrs["hi_"][1]
             if "lo_" in c.owner_attrs:
                 hi_now = getattr(obj, "hi_", None)
@@ -199,6 +203,10 @@ def one(ctx, cname, label, route, pre):
                 if r < obj.lo_:
                     bad("moved-bound", "lower bound raised to %r, the "
                         "attribute still reads %r" % (obj.lo_, r))
+                elif r == obj.lo_ and "xl=1" in cname:
+                    bad("moved-bound-excluded", "lower bound (excluded) "
+                        "raised to %r, the attribute now reads the excluded "
+                        "bound itself" % (obj.lo_,))
             ctx.outcome("moved-bound-checked")
         except Exception as e:
             bad("moved-bound-raises", "moving a bound raised %r" % (e,))
